@@ -42,7 +42,11 @@ FORM_NAMES = [
     'linrand:float', 'linrand:int+', 'linrand:int-', 'bilinrand:float', 'bilinrand:int+', 'bilinrand:int-',
     'sum3rand:float', 'coin', 'rrand:float', 'rrand:int-asc', 'rrand:int-desc', 'exprand',
     'xrand', 'xrand2:float', 'xrand2:int', 'gauss', 'choice', 'choices', 'shuffle', 'scramble', 'table_rand',
+    # one full stream of a random list PATTERN object that all routines (and all plays) of the program share
+    'Pshuffle', 'Prand', 'Pxrand',
 ]
+PATTERN_FORMS = [i for i, n in enumerate(FORM_NAMES) if n[0] == 'P']
+PAT_ITEMS = list(range(8))
 RGEN_READS = {'rand': 3, 'rand2': 3, 'linrand': 6, 'bilinrand': 6, 'sum3rand': 3, 'coin': 1, 'rrand': 3,
               'exprand': 1, 'choice': 1, 'choices': 1, 'shuffle': 2}
 
@@ -66,6 +70,20 @@ def make_forms(bi):
         'choices': lambda: bi.choices([1, 2, 3], [1, 2, 1]), 'shuffle': shuffled,
         'scramble': lambda: bi.scramble(list(range(6))), 'table_rand': lambda: bi.table_rand([0.0, 1.0, 4.0]),
     }
+    from sc3.seq.patterns import listpatterns as lp
+    from sc3.base.stream import stream
+
+    def pattern_form(cls, repeats, count):
+        shared = cls(PAT_ITEMS, repeats)
+
+        def pull(p=None):
+            s = stream(shared if p is None else p)
+            return [s.next() for _ in range(count)]
+        pull.fresh = lambda: pull(cls(PAT_ITEMS, repeats))     # the same draw from a pattern object never used before
+        return pull
+    f['Pshuffle'] = pattern_form(lp.Pshuffle, 1, len(PAT_ITEMS))
+    f['Prand'] = pattern_form(lp.Prand, 4, 4)
+    f['Pxrand'] = pattern_form(lp.Pxrand, 4, 4)
     return [f[n] for n in FORM_NAMES]
 
 
@@ -130,8 +148,23 @@ class Prog:
         """Call one builtin random function; report WHICH generator object it read, by comparing the states of
         all known generator objects before and after (independent of what the function computes)."""
         before = {k: g[0].getstate() for k, g in self.gens.items()}
-        value = self.forms[form % len(self.forms)]()
+        fn = self.forms[form % len(self.forms)]
+        fresh = getattr(fn, 'fresh', None)
+        own = self.main.current_tt._rgen
+        st0 = own.getstate()
+        value = fn()
         changed = [k for k, g in self.gens.items() if g[0].getstate() != before[k]]
+        if fresh is not None:
+            # a random pattern shared with other routines / earlier plays: what a routine gets from it depends on the
+            # routine's generator only, so a pattern object never used before gives the same values from the same state
+            st1 = own.getstate()
+            own.setstate(st0)
+            ref = fresh()
+            if ref != value or own.getstate() != st1:
+                self.draw_diag.append(f'{FORM_NAMES[form % len(FORM_NAMES)]}({PAT_ITEMS}) in routine {i}: the shared '
+                                      f'pattern object gave {value!r}; a new pattern object gives {ref!r} from the '
+                                      f'same generator state (the values depend on who used the pattern before)')
+            own.setstate(st1)
         self.draw_values.append(f'{FORM_NAMES[form % len(FORM_NAMES)]}={value!r}')
         if len(changed) == 1:
             g = self.gens[changed[0]]
